@@ -207,6 +207,6 @@ func (o *c03Oracle) nontrivial() (bool, []string) {
 }
 
 func TestVerifC03(t *testing.T) {
-	standardTest(t, "C03", "TestVerifC03", runOpts{minLen: 8, maxLen: 80, captchaSometimes: true, gen: ircgen.Options{Bias: "serialize", WithMoD: true}},
+	standardTest(t, "C03", "TestVerifC03", runOpts{minLen: 8, maxLen: 80, captchaSometimes: true, gen: ircgen.Options{Bias: "serialize", WithMoD: true, OmitDurations: true}},
 		func(rec *vh.Recorder) oracle { return &c03Oracle{rec: rec} })
 }
